@@ -47,12 +47,18 @@ def plan(tier, seed):
 from vlib.findings import definitional_cycle  # noqa: E402
 
 
+# the OverflowErrors of the listed mechanism: an integer used as a size / repetition count / shift count that no container can have.
+# (Not: a value that does not fit a C int, e.g. chr() of a code point >= 2**31 -- that is a different mechanism, fixed in 7ceb0f4.)
+ASTRONOMIC_OVERFLOW = re.compile(r"index-sized|ssize_t|size_t|too many digits|shift count|too large to convert to float")
+
+
 def known_key(texts, o):
     """Mechanism key of a listed finding, or None.  Keys are matched against known_findings.txt by the driver."""
     if o.cls == "nonterm" or (o.cls == "internal" and o.exc_type == "DeferredCycle"):
         if definitional_cycle(texts):
             return "definitional-cycle"
-    if o.cls == "internal" and (o.exc_type in ("OverflowError", "MemoryError") or
+    if o.cls == "internal" and (o.exc_type == "MemoryError" or
+                                (o.exc_type == "OverflowError" and ASTRONOMIC_OVERFLOW.search(o.exc or "")) or
                                 (o.exc_type == "ValueError" and "Exceeds the limit" in (o.exc or ""))):
         return "astronomic-integer"
     if o.cls == "internal" and o.exc_type == "TypeError" and "Deferred" in (o.exc or "") and any("%" in t for t in texts):
@@ -158,6 +164,50 @@ def run_shard(spec):
             cnt[info["cls"]] += 1
             res["sets"]["how"].append("planted")
             res["sets"]["diag_ids"].extend(info["ids"])
+        # images whose byte sum sits on the boundaries of the tape checksum arithmetic (16-bit sum with end-around carry) and of the
+        # 16-bit length fields, written through every container directive: accepted by the assembler proper, so the real CLI decides
+        sums = sorted({k * 65536 + d for k in range(1, 5) for d in (-3, -2, -1, 0, 1)} | {k * 65535 + d for k in range(1, 5) for d in (-1, 0, 1)} |
+                      {0, 1, 255, 65534})
+        rnd.shuffle(sums)
+        mine = sums[spec["part"] % 4::4] if spec["tier"] == "quick" else sums
+        for s in mine:
+            v = rnd.choice([255, 255, 255, 254, rnd.randrange(128, 256)])
+            n, r = divmod(s, v)
+            body = []
+            if n:
+                body.append(rnd.choice([f".repeat {n}. {{ .byte {v:o} }}", f".repeat {n}. {{ .byte {v}. }}"]))
+            if r or rnd.random() < 0.3:
+                body.append(f".byte {r:o}")
+            if rnd.random() < 0.4:
+                body.append(f".blkb {rnd.randrange(1, 40)}")
+            rnd.shuffle(body)
+            mk = rnd.choice(['make_wav "cb.wav"', 'make_turbo_wav "cb.wav"', 'make_wav "cb.wav", "NAME"', 'make_bin "cb.bin"', 'make_turbo_wav', 'make_wav'])
+            text = "\n".join([mk] + body if rnd.random() < 0.7 else body + [mk]) + "\n"
+            case = {"files": [[os.path.join(root, "f0.mac"), text]], "handler": rnd.choice(["bare", "graphical"]), "cli": True, "root": root,
+                    "wctl": "default", "wseed": rnd.randrange(1 << 30), "boundary_sum": s}
+            vs, info = run_one(case, cnt)
+            res["violations"].extend(vs)
+            res["evaluations"] += 1
+            cnt["boundary_sum_images"] = cnt.get("boundary_sum_images", 0) + 1
+            cnt[info["cls"]] += 1
+            res["sets"]["how"].append("boundary-sum")
+        # every character after a backslash, in every quoting style and literal form: an escape is either defined or reported
+        esc_chars = [chr(c) for c in range(0x20, 0x7F)] + ["\n", "\t", "\r", "\0", "\x7f", "\xe9", "\u044f", "\u2028", "\ufeff", "\U0001f600"]
+        for ch in (esc_chars[spec["part"] % spec["parts"]::spec["parts"]] if spec["tier"] == "quick" else esc_chars):
+            for q in "\"'/":
+                form = rnd.choice([f".ascii {q}a\\{ch}b{q}", f".asciz {q}\\{ch}{q}", f".ascii {q}\\{ch}{q}", f".ascii <1>{q}x\\{ch}{q}<2>",
+                                   f".word '\\{ch}", f".word \"\\{ch}\\{ch}", f".byte '\\{ch} + 1", f".rad50 {q}A\\{ch}{q}",
+                                   f".ident {q}\\{ch}{q}", f"insert_file {q}blob\\{ch}bin{q}"])
+                text = form + rnd.choice(["\n", "\n\tnop\n", ""])
+                case = {"files": [[os.path.join(root, "f0.mac"), text]], "handler": rnd.choice(["bare", "graphical", "record"]), "cli": False, "root": root,
+                        "wctl": rnd.choice(["everything", "default", "nothing"]), "wseed": rnd.randrange(1 << 30)}
+                vs, info = run_one(case, cnt)
+                res["violations"].extend(vs)
+                res["evaluations"] += 1
+                cnt["escape_sweep_programs"] = cnt.get("escape_sweep_programs", 0) + 1
+                cnt[info["cls"]] += 1
+                res["sets"]["how"].append("escape-sweep")
+                res["sets"]["diag_ids"].extend(info["ids"])
         cnt["max_steps"] = 0
         res["sets"]["max_steps_seen"] = [max_steps]
     finally:
@@ -323,7 +373,8 @@ def cli_cross_check(case, o, cnt):
                 return out
             v = {"what": f"API outcome {o.cls} but CLI exit {r['exit']} banner={r['internal_error']}; stderr tail {r['stderr'][-200:]!r}",
                  "case": {k: v for k, v in case.items()}}
-            if r["internal_error"] and (b"MemoryError" in r["stderr"][-400:] or b"OverflowError" in r["stderr"][-400:]):
+            tail = r["stderr"][-400:].decode("utf-8", "replace")
+            if r["internal_error"] and ("MemoryError" in tail or ("OverflowError" in tail and ASTRONOMIC_OVERFLOW.search(tail))):
                 # the listed finding: a fill of hundreds of megabytes that this process could still allocate and the child could not
                 v["known_key"] = "astronomic-integer"
             out.append(v)
